@@ -1,4 +1,114 @@
-From AQ Require Import lib.Base model.RangeSet.
-Theorem placeholder : True.
-Proof. exact I. Qed.
-Print Assumptions placeholder.
+(* C10  Stream send and receive halves conform to a reference model.
+   Only statements here; proofs live in coq/proofs/. *)
+From AQ Require Import lib.Base model.RangeSet model.StreamRecv model.StreamSpec
+  model.StreamSend proofs.RangeSetP proofs.StreamRecvP proofs.StreamSendP.
+
+(* RangeSet: add / subtract preserve well-formedness (sorted, non-empty, never touching ranges)
+   and have exactly the set-theoretic meaning, for all range lists and all integers. *)
+Theorem rs_add_wf : forall l start stop, wf l -> start < stop -> wf (add start stop l).
+Proof. exact add_wf. Qed.
+Print Assumptions rs_add_wf.
+
+Theorem rs_add_mem : forall l start stop x, wf l -> start < stop ->
+  (mem x (add start stop l) <-> (start <= x < stop \/ mem x l)).
+Proof. exact add_mem. Qed.
+Print Assumptions rs_add_mem.
+
+Theorem rs_subtract_wf : forall l start stop, wf l -> start < stop -> wf (subtract start stop l).
+Proof. exact subtract_wf. Qed.
+Print Assumptions rs_subtract_wf.
+
+Theorem rs_subtract_mem : forall l start stop x, wf l -> start < stop ->
+  (mem x (subtract start stop l) <-> (mem x l /\ ~ (start <= x < stop))).
+Proof. exact subtract_mem. Qed.
+Print Assumptions rs_subtract_mem.
+
+Theorem rs_shift_spec : forall l r l', wf l -> shift l = Some (r, l') ->
+  wf l' /\ fst r < snd r /\ (forall x, mem x l <-> (fst r <= x < snd r \/ mem x l')) /\
+  (forall x, mem x l' -> snd r < x).
+Proof. exact shift_spec. Qed.
+Print Assumptions rs_shift_spec.
+
+(* Receive half: for EVERY sequence of frames (any offsets, overlaps, duplicates, FIN positions)
+   and resets, the events it returns (delivered bytes, end marker, FinalSizeError) and its public
+   observables (highest_offset, is_finished, starting_offset) equal those of the offset->byte map
+   of model/StreamSpec.v, up to and including the first accepted reset. *)
+Theorem recv_refines_spec : forall ops, recv_trace recv_init ops = spec_trace rspec_init ops.
+Proof. exact recv_refines. Qed.
+Print Assumptions recv_refines_spec.
+
+(* ... and over the WHOLE history (resets accepted or not, frames after a reset included) the delivered
+   bytes, the FinalSizeError verdicts, highest_offset and starting_offset agree with the map; only the
+   end marker / is_finished are left unspecified once a reset has been accepted. *)
+Theorem recv_refines_bytes_spec : forall ops, recv_wtrace recv_init ops = spec_wtrace rspec_init ops.
+Proof. exact recv_refines_bytes. Qed.
+Print Assumptions recv_refines_bytes_spec.
+
+(* Send half.  [reach st g]: st is reachable from a fresh writable sender by a legitimate history
+   (proofs/StreamSendP.v: no write after FIN/reset, no get_frame after reset, and every delivery
+   outcome refers to an emitted frame that has had no outcome yet -- the premise provided by C08);
+   g is the ghost record of all bytes written and of the emitted frames still without outcome. *)
+
+(* every emitted frame carries exactly the written bytes for its offsets, within both caps;
+   FIN only on a frame that ends the written data after end_stream *)
+Theorem send_frames_exact_thm : forall st g ms mo off data fin st',
+  reach st g -> s_reset st = None ->
+  get_frame st ms mo = (SFrame off data fin, st') ->
+  0 <= off /\ off + Zlen data <= Zlen (g_written g) /\
+  data = slice (g_written g) off (off + Zlen data) /\
+  (data <> [] -> Zlen data <= ms /\ forall m, mo = Some m -> off + Zlen data <= m) /\
+  (fin = true -> s_fin st = Some (Zlen (g_written g)) /\ off + Zlen data = Zlen (g_written g)).
+Proof. exact send_frames_exact. Qed.
+Print Assumptions send_frames_exact_thm.
+
+(* every written offset is -- exactly once -- acknowledged, pending, or carried by an emitted frame
+   without outcome; a written FIN is acknowledged, pending or outstanding (nothing is forgotten) *)
+Theorem send_partition_thm : forall st g, reach st g ->
+  (forall o, 0 <= o < Zlen (g_written g) ->
+     ackedb st o + b2z (contains o (s_pending st)) + cover o (g_outs g) = 1) /\
+  (forall f, s_fin st = Some f -> f = Zlen (g_written g) /\
+     (s_pending_eof st = true \/ s_acked_fin st = true \/ 1 <= cfin (g_outs g))).
+Proof. exact send_partition. Qed.
+Print Assumptions send_partition_thm.
+
+(* unacknowledged bytes and FIN are re-offered after loss ... *)
+Theorem lost_reoffered_thm : forall st g a b fin,
+  reach st g -> s_reset st = None -> In (a, b, fin) (g_outs g) ->
+  let st' := snd (on_data_delivery st false a b fin) in
+  (forall o, a <= o < b -> mem o (s_pending st')) /\ (fin = true -> s_pending_eof st' = true) /\
+  (a < b \/ fin = true -> s_empty st' = false).
+Proof. exact lost_reoffered. Qed.
+Print Assumptions lost_reoffered_thm.
+
+(* ... and whatever is pending is emitted by the next frame request whose caps allow it *)
+Theorem pending_offered_thm : forall st g ms,
+  reach st g -> s_reset st = None -> 0 < ms ->
+  match s_pending st with
+  | (start, _) :: _ => exists data fin st', get_frame st ms None = (SFrame start data fin, st') /\ data <> []
+  | [] => s_pending_eof st = true -> exists f st', get_frame st ms None = (SFrame f [] true, st')
+  end.
+Proof. exact pending_offered. Qed.
+Print Assumptions pending_offered_thm.
+
+Theorem nothing_after_reset_thm : forall st g, reach st g -> s_reset st <> None ->
+  s_empty st = true /\ forall ms mo, get_frame st ms mo = (SAssert, st).
+Proof. exact nothing_after_reset. Qed.
+Print Assumptions nothing_after_reset_thm.
+
+(* completion is reported exactly when all bytes and the FIN, or the reset, have been acknowledged *)
+Theorem finished_iff_thm : forall st g, reach st g ->
+  (s_finished st = true <->
+   ((s_fin st = Some (Zlen (g_written g)) /\ s_start st = Zlen (g_written g) /\ s_acked_fin st = true)
+    \/ g_reset_acked g = true)).
+Proof. exact finished_iff. Qed.
+Print Assumptions finished_iff_thm.
+
+Theorem all_acked_iff_thm : forall st g, reach st g ->
+  (s_start st = Zlen (g_written g) <-> forall o, 0 <= o < Zlen (g_written g) -> acked_at st o).
+Proof. exact all_acked_iff. Qed.
+Print Assumptions all_acked_iff_thm.
+
+(* a legitimate history never trips an assertion of the send half *)
+Theorem send_no_assert_thm : forall st g op, reach st g -> legit st g op -> fst (send_step st op) <> SAssert.
+Proof. exact send_no_assert. Qed.
+Print Assumptions send_no_assert_thm.
